@@ -38,11 +38,9 @@ def mapInp (f : Float → Rat) (i : Inp Float) : Inp Rat :=
     minSeaweed := l i.minSeaweed, minCrops := l i.minCrops, minStored := l i.minStored, minMeat := l i.minMeat, minScp := l i.minScp,
     minCs := l i.minCs }
 
-/-- decidable version of `Certificate.WellFormed` on the months of the horizon -/
-def wellFormedB (i : Inp Rat) : Bool :=
-  let w (x : Rat) := decide (0 ≤ x) && decide (x < 100)
-  w i.wStored && w i.wCrop && w i.wMeat && w i.wScp && w i.wCs && w i.wSeaweed &&
-  (i.cropProd.all fun v => decide (0 ≤ v)) && decide (0 ≤ i.storedInitial)
+/-- `Certificate.WellFormed` as a Boolean: the model's own `Certificate.wellFormedB`
+    (`Proofs/Certificate.lean: wellFormedB_iff` proves `wellFormedB i = true ↔ WellFormed i`) -/
+def wellFormedB (i : Inp Rat) : Bool := Allfed.Certificate.wellFormedB i
 
 /-- cert.bound <kind> <inp> <y : floats aligned with the rows of buildLP>
     → `wf` flag, then `none` | `some <bound as float> <number of positive residuals absorbed>`
